@@ -6,6 +6,7 @@ package main
 
 import (
 	"encoding/hex"
+	"encoding/json"
 	"go/types"
 	"net"
 	"reflect"
@@ -124,8 +125,51 @@ func registerRegexp() {
 	intrinsics["(*regexp.Regexp).MatchString"] = match
 }
 
+// registerJSON: encoding/json (reflection based) is executed natively for the
+// only shape the enum types use: a concrete string value / a *string target.
+func registerJSON() {
+	intrinsics["encoding/json.Marshal"] = func(in *Interp, _ *Frame, fn *ssa.Function, a []Value) (Value, bool) {
+		iv, ok := a[0].(Iface)
+		if !ok || iv.t == nil || !isString(iv.t) {
+			panic(&pathEnd{kind: "unsupported", msg: "json.Marshal of a non-string value"})
+		}
+		s, conc := iv.v.(Str).Concrete()
+		if !conc {
+			panic(&pathEnd{kind: "unsupported", msg: "json.Marshal of a symbolic string"})
+		}
+		b, err := json.Marshal(s)
+		res := fn.Signature.Results()
+		var ev Value = Iface{}
+		if err != nil {
+			ev = in.nativeError(err)
+		}
+		return TupleV{in.fromNative(reflect.ValueOf(b), res.At(0).Type()), ev}, true
+	}
+	intrinsics["encoding/json.Unmarshal"] = func(in *Interp, _ *Frame, fn *ssa.Function, a []Value) (Value, bool) {
+		iv, ok := a[1].(Iface)
+		if !ok || iv.t == nil {
+			panic(&pathEnd{kind: "unsupported", msg: "json.Unmarshal into nil"})
+		}
+		pt, isPtr := iv.t.Underlying().(*types.Pointer)
+		if !isPtr || !isString(pt.Elem()) {
+			panic(&pathEnd{kind: "unsupported", msg: "json.Unmarshal into a non-*string target"})
+		}
+		data, conc := in.toNative(a[0], reflect.TypeOf([]byte(nil)))
+		if !conc {
+			panic(&pathEnd{kind: "unsupported", msg: "json.Unmarshal of symbolic bytes"})
+		}
+		var s string
+		if err := json.Unmarshal(data.Bytes(), &s); err != nil {
+			return in.nativeError(err), true
+		}
+		in.store(iv.v, Str{s: s})
+		return Iface{}, true
+	}
+}
+
 func registerNativeCallouts() {
 	registerRegexp()
+	registerJSON()
 	intrinsics["(net.IP).String"] = func(in *Interp, _ *Frame, _ *ssa.Function, a []Value) (Value, bool) {
 		v, ok := in.toNative(a[0], reflect.TypeOf([]byte(nil)))
 		if !ok {
